@@ -63,15 +63,18 @@ type stopSide struct {
 }
 
 type world struct {
-	cfg    relayCfg
-	h      *fhost
-	cm     *fcm
-	net    *fnet
-	rm     network.ResourceManager // the real manager (the relay sees it through rmWrap)
-	relay  *relay.Relay
-	plan   *faultPlan
-	m      *model
-	bufmax int
+	cfg   relayCfg
+	h     *fhost
+	cm    *fcm
+	net   *fnet
+	rm    network.ResourceManager // the real manager (the relay sees it through rmWrap)
+	relay *relay.Relay
+	// a second relay in the same process (cfg.ViaDefaults)
+	sibling   *relay.Relay
+	siblingRM network.ResourceManager
+	plan      *faultPlan
+	m         *model
+	bufmax    int
 
 	mu         sync.Mutex
 	log        []string
@@ -139,6 +142,16 @@ func newWorld(cfg relayCfg, lim rcmgr.ConcreteLimitConfig, plan *faultPlan) (*wo
 	if cfg.Limited {
 		rc.Limit = &relay.RelayLimit{Duration: cfg.LimitDur, Data: cfg.LimitData}
 	}
+	if cfg.ViaDefaults {
+		rc = relay.DefaultResources()
+		rc.ReservationTTL, rc.MaxReservations, rc.MaxCircuits, rc.BufferSize = cfg.TTL, cfg.MaxRes, cfg.MaxCirc, cfg.Buf
+		rc.MaxReservationsPerPeer, rc.MaxReservationsPerIP, rc.MaxReservationsPerASN = 1, cfg.MaxIP, cfg.MaxASN
+		if cfg.Limited {
+			rc.Limit.Duration, rc.Limit.Data = cfg.LimitDur, cfg.LimitData
+		} else {
+			rc.Limit = nil
+		}
+	}
 	opts := []relay.Option{relay.WithResources(rc)}
 	if cfg.ACL != nil {
 		opts = append(opts, relay.WithACL(cfg.ACL))
@@ -148,6 +161,26 @@ func newWorld(cfg relayCfg, lim rcmgr.ConcreteLimitConfig, plan *faultPlan) (*wo
 	if err != nil {
 		rm.Close()
 		return nil, err
+	}
+	if cfg.ViaDefaults {
+		rm2, err := rcmgr.NewResourceManager(rcmgr.NewFixedLimiter(lim), rcmgr.WithMetricsDisabled())
+		if err != nil {
+			return nil, err
+		}
+		sh := &fhost{id: otherRelay.id, ps: &fps{id: otherRelay.id, priv: otherRelay.priv}, cm: newFcm(),
+			net:      &fnet{local: otherRelay.id, rm: &rmWrap{ResourceManager: rm2}, conns: map[peer.ID][]*fconn{}},
+			addrs:    []ma.Multiaddr{ma.StringCast("/ip4/9.9.9.8/tcp/4001")},
+			handlers: map[protocol.ID]network.StreamHandler{}}
+		sh.newStream = func(context.Context, peer.ID, protocol.ID) (network.Stream, error) {
+			return nil, errors.New("sibling relay: no peers")
+		}
+		rc2 := relay.DefaultResources()
+		rc2.Limit.Data, rc2.Limit.Duration = 1<<40, 1000*time.Hour
+		if w.sibling, err = relay.New(sh, relay.WithResources(rc2)); err != nil {
+			rm2.Close()
+			return nil, err
+		}
+		w.siblingRM = rm2
 	}
 	w.m = newModel(cfg, t0)
 	// Virtual-time watchdog: the relay's and the resource manager's tickers keep a bubble "alive" for
@@ -197,6 +230,10 @@ func (w *world) shutdown() {
 	synctest.Wait()
 	w.relay.Close()
 	w.rm.Close()
+	if w.sibling != nil {
+		w.sibling.Close()
+		w.siblingRM.Close()
+	}
 	close(w.done)
 	synctest.Wait()
 }
